@@ -250,3 +250,64 @@ func runC09(c *CheckCtx) {
 	c.assumptions["sync.RWMutex modelled as a ghost lockset (0 free, 1 read, 2 write), not re-entrant"] = true
 	c.assumptions["gensym / memoize (lisp source in header-coreextended.lisp) are outside the verifier"] = true
 }
+
+// ---------------------------------------------------------------------------
+// C10: futures run once, give every reader the same outcome, report status consistently
+
+func init() {
+	register(&Property{
+		ID: "C10", Level: "other", Technique: "contract-based deductive verification of per-thread obligations: ghost counters (Apply called once, one outcome sent) on the goroutine closure, chan/redeposit (deref puts back exactly what it received), flag/monotone (only true is ever stored to Done/Cancelled), publish/order (Done already true when the outcome is sent), race/shared-field (status fields accessed without synchronisation), Cancel's sequential contract; schedule-quantified claims by argument only",
+		DesignRef: "DESIGN.md §4 C10",
+		Explain:   "partial: obligations on each thread's code; no interleaving semantics in the verifier",
+		Run:       runC10,
+	})
+}
+
+func runC10(c *CheckCtx) {
+	var jobs []*Job
+	for _, f := range concurrentFuncs(c) {
+		n := fnName(f)
+		if strings.Contains(n, "Future") || strings.Contains(n, "future") || strings.HasPrefix(n, "lib/concurrent.Load$") {
+			jobs = append(jobs, &Job{Fn: f, PanicMode: "ignore", LockMode: true})
+		}
+	}
+	c.runJobs(jobs, func(o *Obligation) bool {
+		switch {
+		case strings.HasPrefix(o.Kind, "race/"), strings.HasPrefix(o.Kind, "flag/"), strings.HasPrefix(o.Kind, "chan/"), strings.HasPrefix(o.Kind, "publish/"), strings.HasPrefix(o.Kind, "lock/"):
+			return true
+		}
+		return o.Kind == "post" && (strings.Contains(o.Fn, "Future") || strings.Contains(o.Fn, "future"))
+	})
+	c.assumptions["channels of capacity 1 holding the outcome: blocking and scheduling are not modelled; a select is a nondeterministic choice among its cases"] = true
+	c.assumptions["that every deref returns the same outcome follows from chan/redeposit + exactly one deposit by an argument over schedules that is not mechanised"] = true
+}
+
+// ---------------------------------------------------------------------------
+// C11: concurrent evaluations on one environment are race-free and isolated
+
+func init() {
+	register(&Property{
+		ID: "C11", Level: "other", Technique: "contract-based deductive verification of race-freedom obligations: ghost lockset; lock/held-for-access on the contents of Env.data and on Atom.Val (or the object is fresh and unpublished), lock/field-immutable (Env.mu/data/outer only written on fresh objects), lock/balance, lock/no-self-deadlock, lock/order (a scope's lock is only held while a strict ancestor's is taken: rank = outer-chain depth), fresh-scope post-conditions of the scope constructors; non-interference itself by argument",
+		DesignRef: "DESIGN.md §4 C11",
+		Explain:   "partial: per-thread obligations that rule out data races on scopes; no interleaving semantics in the verifier",
+		Run:       runC11,
+	})
+}
+
+func runC11(c *CheckCtx) {
+	var jobs []*Job
+	for _, f := range c.funcsIn("/env") {
+		jobs = append(jobs, &Job{Fn: f, PanicMode: "ignore", LockMode: true})
+	}
+	if f := c.eng.lookupFunc("(*lib/concurrent.Atom).LispPrint"); f != nil {
+		jobs = append(jobs, &Job{Fn: f, PanicMode: "ignore", LockMode: true})
+	}
+	c.runJobs(jobs, func(o *Obligation) bool {
+		if strings.HasPrefix(o.Kind, "lock/") || o.Kind == "global/store" {
+			return true
+		}
+		return o.Kind == "post" && strings.HasPrefix(o.Fn, "env.")
+	})
+	c.assumptions["M-NI: 'each evaluation returns what it returns alone' follows from race-freedom on scopes, fresh local scopes, immutable values (C02) and the absence of other shared mutable state by a non-interference argument that is not mechanised"] = true
+	c.assumptions["gensym / memoize (lisp source) are outside the verifier"] = true
+}
